@@ -33,6 +33,20 @@ CHECKS = {
         "(stratified by action) in the quick tier. MPI/parallel calculators and tracing_update not covered.",
         technique="TLA+ transcription of Calculator.change + scope model (TLC exhaustive) + spec->code transition replay",
     ),
+    "C05": dict(
+        category="model_checking",
+        text="MarkovQ.tla states the published definition of the named substitution models (nucleotide JC69..GTR, GN; codon GY94/Y98 "
+        "(word), MG94HKY/GTR (monomer), CNFHKY/GTR (conditional)) in exact rational arithmetic; TLC proves zero row sums, "
+        "non-negative off-diagonals, unit expected rate, stationarity and detailed balance on every instance (prime-coded "
+        "parameters) and every cell of Q is compared with the real likelihood function's rate matrix. MarkovP.tla gives the exact "
+        "rational P(t) of the TN93 family; TLC proves row-stochasticity, P(0)=I, Chapman-Kolmogorov and detailed balance, and the real "
+        "psubs are compared with it under every expm back-end and Exponentiator class.",
+        design_ref="DESIGN.md section 2 / C05",
+        note="Trusted: TLC, Fraction->float conversion, ln(q) for branch lengths. exp(Qt) of models without a rational closed form "
+        "(GTR, GN, ssGN, codon, protein) is NOT decided by the spec: the obligations are evaluated relationally in floating point in "
+        "the harness. Gamma rate classes: normalisation only. Discrete-time BH/DT not covered.",
+        technique="TLA+ exact-rational model definitions (TLC invariants) + cell-by-cell conformance of real Q and P",
+    ),
 }
 
 PENDING = {}
